@@ -319,4 +319,59 @@ def reactionLine (pr : Printer) (rxn : List Char) (param : Option Param) (name :
   | none => pure r1
   | some n => pure (r1 ++ separator pr ++ n)
 
+/-! ### `as_per_substance_html_table` and `Table._html` (chempy/printing/table.py) -/
+
+/-- what `number_to_scientific_html` is called with for one substance: the unitless magnitude and the html text of the
+    value's own unit (`none`: a plain number) -/
+structure Cell where
+  mag : Rat
+  unit : Option (List Char)
+deriving Repr, DecidableEq
+
+/-- the data container, as far as `_elem` distinguishes it: `cont[k]` works (dict, OrderedDict, QuantityDict …), or it raises
+    TypeError/IndexError and the position of `k` among the substance keys is used (list, tuple, array) -/
+inductive Container
+  | keyed (entries : List (List Char × Cell))
+  | positional (items : List Cell)
+
+/-- `list(substances.keys()).index(k)`; `none` = ValueError -/
+def indexOf (k : List Char) : List (List Char) → Option Nat
+  | [] => none
+  | x :: xs => if x = k then some 0 else (indexOf k xs).map (· + 1)
+
+/-- `_elem(k)` -/
+def tableElem (keys : List (List Char)) (c : Container) (k : List Char) : Except String Cell :=
+  match c with
+  | .keyed l => match l.lookup k with
+    | some v => pure v
+    | none => throw "KeyError"
+  | .positional l => match indexOf k keys with
+    | none => throw "ValueError"
+    | some i => match l[i]? with
+      | some v => pure v
+      | none => throw "IndexError"
+
+/-- the rows `(v.html_name, number_to_scientific_html(_elem(k)))` in the order of `substances` (key, html name) -/
+def tableRows (substances : List (List Char × List Char)) (c : Container) : Except String (List (List Char × List Char)) :=
+  substances.mapM fun kn => do
+    let cell ← tableElem (substances.map Prod.fst) c kn.1
+    let text ← numberToX .html none cell.mag cell.unit
+    pure (kn.2, text)
+
+def joinWith (sep : List Char) : List (List Char) → List Char
+  | [] => []
+  | [x] => x
+  | x :: xs => x ++ sep ++ joinWith sep xs
+
+/-- `Table._html` for rows of strings: header row `Substance | header`, one `<tr>` per row, cells and rows joined by a newline -/
+def tableHtml (header : List Char) (rows : List (List Char × List Char)) : List Char :=
+  let tr (cells : List (List Char)) : List Char := "<tr>".toList ++ joinWith ['\n'] cells ++ "</tr>".toList
+  let head := tr ["<th>Substance</th>".toList, "<th>".toList ++ header ++ "</th>".toList]
+  let body := rows.map fun r => tr ["<td>".toList ++ r.1 ++ "</td>".toList, "<td>".toList ++ r.2 ++ "</td>".toList]
+  "<table>".toList ++ joinWith ['\n'] (head :: body) ++ "</table>".toList
+
+/-- `html(as_per_substance_html_table(cont, substances, header))` -/
+def perSubstanceTable (substances : List (List Char × List Char)) (c : Container) (header : List Char) : Res := do
+  pure (tableHtml header (← tableRows substances c))
+
 end ChemModel.NumFmt
